@@ -8,7 +8,7 @@ without an obligation cannot be said to meet its precondition.
 import re
 
 from ..core import RuleResult
-from ..ir import access_paths, walk, strip, inline
+from ..ir import access_paths, walk, strip, inline, resolve_closure_params
 from .. import anchors
 from .codec import find_buffers
 
@@ -147,7 +147,7 @@ def rule_unsafe_sites(ctx, config='dev'):
             continue
         if kind == 'transmute':
             fr, to = node['r'].get('from_ty', ''), node['r']['ty']
-            e = b.expr_of_operand(node['r']['o'])
+            e = resolve_closure_params(f, b.expr_of_operand(node['r']['o']))
             if strip_lifetimes(fr) != strip_lifetimes(to) or not fr.startswith('&'):
                 r.site('%s: transmute %s -> %s' % (b.path, fr, to), site, 'violation')
                 r.violation('%s:transmute' % root.path, site, b.path,
@@ -302,12 +302,87 @@ def rule_no_unsafe_sync(ctx, config='dev'):
 
 # ---------------------------------------------------------------------------------- RANGE-VALIDATED (C19)
 
+def _range_check_fn(f, b, bounds, targets, payload_of):
+    """under every present/absent combination of the two bounds, which required comparisons can be bypassed on a path to `targets`?
+    returns list of (what, s_some, e_some)"""
+    def disc_of(op, assume):
+        if op['k'] not in ('copy', 'move') or op['p']['pr']:
+            return None
+        ds = b.whole_defs(op['p']['l'])
+        if len(ds) != 1 or ds[0][1] != 'assign' or ds[0][2]['r']['k'] != 'discr':
+            return None
+        pl = ds[0][2]['r']['p']
+        l = pl['l']
+        if pl['pr'] and isinstance(pl['pr'][0], dict) and 'f' in pl['pr'][0] and len(pl['pr']) == 1:
+            tds = b.whole_defs(l)
+            if len(tds) == 1 and tds[0][1] == 'assign' and tds[0][2]['r']['k'] == 'agg' and tds[0][2]['r'].get('ak') == 'tuple':
+                o2 = tds[0][2]['r']['ops'][pl['pr'][0]['f']]
+                for _ in range(6):
+                    if o2['k'] not in ('copy', 'move') or o2['p']['pr']:
+                        break
+                    if o2['p']['l'] in assume:
+                        return assume[o2['p']['l']]
+                    d2 = b.whole_defs(o2['p']['l'])
+                    if len(d2) == 1 and d2[0][1] == 'assign' and d2[0][2]['r']['k'] == 'use':
+                        o2 = d2[0][2]['r']['o']
+                    else:
+                        break
+            return None
+        if not pl['pr'] and l in assume:
+            return assume[l]
+        return None
+
+    def reach(assume, blocked):
+        seen, st = set(), [0]
+        while st:
+            x = st.pop()
+            if x in seen or x in blocked:
+                continue
+            seen.add(x)
+            t = b.term(x)
+            if t['k'] == 'switch':
+                d = disc_of(t['d'], assume)
+                if d is not None:
+                    tm = {v: tb for v, tb in t['targets']}
+                    st.append(tm.get(d, t['otherwise']))
+                    continue
+            st.extend(b.succs(x))
+        return seen
+    cmp_len = {'start': set(), 'end': set()}
+    cmp_se = set()
+    for pt, s in b.points():
+        if s['k'] == 'assign' and s['r']['k'] == 'bin' and s['r']['op'] in ('Gt', 'Lt', 'Ge', 'Le'):
+            ea, eb = b.expr_of_operand(s['r']['a']), b.expr_of_operand(s['r']['b'])
+            for which in ('start', 'end'):
+                for x, y in ((ea, eb), (eb, ea)):
+                    if payload_of(x, which) and any(z[0] == 'call' and z[1].rsplit('::', 1)[-1] == 'len' for z in walk(y)):
+                        cmp_len[which].add(pt[0])
+            if (payload_of(ea, 'start') and payload_of(eb, 'end')) or (payload_of(ea, 'end') and payload_of(eb, 'start')):
+                cmp_se.add(pt[0])
+    out = []
+    for s_some in (0, 1):
+        for e_some in (0, 1):
+            assume = {bounds['start']: s_some, bounds['end']: e_some}
+            needs = []
+            if e_some:
+                needs.append(('end <= len', cmp_len['end']))
+            if s_some and not e_some:
+                needs.append(('start <= len', cmp_len['start']))
+            if s_some and e_some:
+                needs.append(('start <= end', cmp_se))
+            for what, blocks in needs:
+                rr = reach(assume, blocks)
+                out.append((what, s_some, e_some, not (targets & rr)))
+    return out
+
+
 def rule_range_validated(ctx, config='dev'):
     """safe slicing functions validate the requested range before any unchecked piece access"""
     f = ctx.facts(config)
     r = RuleResult('RANGE-VALIDATED', 'a safe function that indexes the piece vector unchecked first validates the requested range: for every '
                                       'combination of present / absent range bounds, each path to the unchecked access compares the present '
-                                      'end (or lone start) with the rope length, and start with end when both are present')
+                                      'end (or lone start) with the rope length, and start with end when both are present (directly, or in a '
+                                      'validator function whose error is propagated)')
     r.floor = 1
     for b in f.body_list:
         if b.promoted is not None or b.d['kind'] == 'Closure' or b.d.get('unsafe_fn'):
@@ -317,23 +392,23 @@ def rule_range_validated(ctx, config='dev'):
                      if t.get('callee') and t['callee']['name'] == 'get_unchecked' and t['arg_tys'] and PIECES.search(t['arg_tys'][0])]
         if not unchecked:
             continue
-        # bound locals: Option<usize> computed from RangeBounds::start_bound / end_bound of a parameter
         bounds = {}
-        for pt, t in b.calls():
-            if t['dest']['pr'] or 'Option<usize>' not in b.local_ty(t['dest']['l']):
+        for l in range(1, len(b.locals)):
+            if 'Option<usize>' not in b.local_ty(l) or b.local_ty(l).startswith('&') or not b.whole_defs(l):
                 continue
-            e = b.expr_of_local(t['dest']['l'])
+            if not b.local_name(l) and any(k2 != 'call' for _, k2, _ in b.whole_defs(l)):
+                continue
+            e = inline(f, b.expr_of_local(l), depth=2)
             names = {x[1].rsplit('::', 1)[-1] for x in walk(e) if x[0] == 'call'}
-            if 'start_bound' in names:
-                bounds['start'] = t['dest']['l']
-            elif 'end_bound' in names:
-                bounds['end'] = t['dest']['l']
+            if 'start_bound' in names and 'end_bound' not in names:
+                bounds.setdefault('start', l)
+            elif 'end_bound' in names and 'start_bound' not in names:
+                bounds.setdefault('end', l)
         if set(bounds) != {'start', 'end'}:
             r.site('%s: range bounds not identified' % b.path, b.span(), 'violation')
             r.violation('%s:bounds' % b.path, b.span(), b.path,
                         'cannot identify the start / end bounds of the requested range (unrecognised idiom, fail-closed)', reason='unrecognised-idiom')
             continue
-        # first unchecked access in b itself or the creation point of the closure that contains it
         targets = set()
         for m, pt in unchecked:
             if m is b:
@@ -343,86 +418,52 @@ def rule_range_validated(ctx, config='dev'):
                     if ps['k'] == 'assign' and ps['r']['k'] == 'agg' and ps['r'].get('path') == m.path:
                         targets.add(ppt[0])
 
-        def disc_of(op, assume):
-            """constant discriminant of an operand under the assumption, or None"""
-            if op['k'] not in ('copy', 'move') or op['p']['pr']:
-                return None
-            ds = b.whole_defs(op['p']['l'])
-            if len(ds) != 1 or ds[0][1] != 'assign' or ds[0][2]['r']['k'] != 'discr':
-                return None
-            pl = ds[0][2]['r']['p']
-            l = pl['l']
-            if pl['pr'] and isinstance(pl['pr'][0], dict) and 'f' in pl['pr'][0] and len(pl['pr']) == 1:
-                tds = b.whole_defs(l)
-                if len(tds) == 1 and tds[0][1] == 'assign' and tds[0][2]['r']['k'] == 'agg' and tds[0][2]['r'].get('ak') == 'tuple':
-                    o2 = tds[0][2]['r']['ops'][pl['pr'][0]['f']]
-                    while o2['k'] in ('copy', 'move') and not o2['p']['pr']:
-                        if o2['p']['l'] in assume:
-                            return assume[o2['p']['l']]
-                        d2 = b.whole_defs(o2['p']['l'])
-                        if len(d2) == 1 and d2[0][1] == 'assign' and d2[0][2]['r']['k'] == 'use':
-                            o2 = d2[0][2]['r']['o']
-                        else:
-                            break
-                return None
-            if not pl['pr'] and l in assume:
-                return assume[l]
-            return None
-
-        def reach(assume, blocked):
-            seen, st = set(), [0]
-            while st:
-                x = st.pop()
-                if x in seen or x in blocked:
+        def payload_caller(e, which):
+            e = inline(f, e, depth=2)
+            names = {x[1].rsplit('::', 1)[-1] for x in walk(e) if x[0] == 'call'}
+            return ('start_bound' if which == 'start' else 'end_bound') in names
+        res = _range_check_fn(f, b, bounds, targets, payload_caller)
+        where = b
+        if not all(ok for _, _, _, ok in res):
+            # delegated: a validator function receives both bounds, its error is propagated, and the call dominates the accesses
+            for pt, t in b.calls():
+                c = t.get('callee')
+                vb = f.body(c.get('resolved') or c['path']) if c else None
+                if vb is None or vb.d['kind'] == 'Closure' or 'Result<' not in b.local_ty(t['dest']['l']):
                     continue
-                seen.add(x)
-                t = b.term(x)
-                if t['k'] == 'switch':
-                    d = disc_of(t['d'], assume)
-                    if d is not None:
-                        tm = {v: tb for v, tb in t['targets']}
-                        st.append(tm.get(d, t['otherwise']))
-                        continue
-                st.extend(b.succs(x))
-            return seen
+                pos = {}
+                for i, a in enumerate(t['args']):
+                    if a['k'] in ('copy', 'move') and not a['p']['pr']:
+                        src = a['p']['l']
+                        ds = b.whole_defs(src)
+                        if len(ds) == 1 and ds[0][1] == 'assign' and ds[0][2]['r']['k'] == 'use' and ds[0][2]['r']['o']['k'] in ('copy', 'move') \
+                                and not ds[0][2]['r']['o']['p']['pr']:
+                            src = ds[0][2]['r']['o']['p']['l']
+                        for which, bl in bounds.items():
+                            if src == bl:
+                                pos[which] = i + 1
+                if set(pos) != {'start', 'end'}:
+                    continue
+                propagated = any(t2.get('callee') and t2['callee']['name'] == 'branch' and t2['args'] and
+                                 t2['args'][0]['k'] in ('move', 'copy') and t2['args'][0]['p']['l'] == t['dest']['l'] for _, t2 in b.calls())
+                dominates = all(b.dominates(pt, (tb, 0)) for tb in targets)
+                if not (propagated and dominates):
+                    continue
+                ok_targets = {p2[0] for p2, s2 in vb.points() if s2['k'] == 'assign' and not s2['p']['pr'] and s2['p']['l'] == 0
+                              and s2['r']['k'] == 'agg' and s2['r'].get('variant') == 'Ok'}
 
-        def payload_of(e, which):
-            """does expression e derive from the payload of bound `which`?"""
-            for x in walk(e):
-                if x[0] == 'call' and x[1].rsplit('::', 1)[-1] == ('start_bound' if which == 'start' else 'end_bound'):
-                    return True
-            return False
-        # comparison blocks
-        cmp_len = {'start': set(), 'end': set()}
-        cmp_se = set()
-        for pt, s in b.points():
-            if s['k'] == 'assign' and s['r']['k'] == 'bin' and s['r']['op'] in ('Gt', 'Lt', 'Ge', 'Le'):
-                ea, eb = b.expr_of_operand(s['r']['a']), b.expr_of_operand(s['r']['b'])
-                for which in ('start', 'end'):
-                    for x, y in ((ea, eb), (eb, ea)):
-                        if payload_of(x, which) and any(z[0] == 'call' and z[1].rsplit('::', 1)[-1] == 'len' for z in walk(y)):
-                            cmp_len[which].add(pt[0])
-                if (payload_of(ea, 'start') and payload_of(eb, 'end')) or (payload_of(ea, 'end') and payload_of(eb, 'start')):
-                    cmp_se.add(pt[0])
-        for s_some in (0, 1):
-            for e_some in (0, 1):
-                assume = {bounds['start']: s_some, bounds['end']: e_some}
-                needs = []
-                if e_some:
-                    needs.append(('end <= len', cmp_len['end']))
-                if s_some and not e_some:
-                    needs.append(('start <= len', cmp_len['start']))
-                if s_some and e_some:
-                    needs.append(('start <= end', cmp_se))
-                for what, blocks in needs:
-                    rr = reach(assume, blocks)
-                    ok = not (targets & rr)
-                    r.site('%s: bounds (start %s, end %s): `%s` is checked on every path to the unchecked access' % (
-                        b.path, 'present' if s_some else 'absent', 'present' if e_some else 'absent', what), b.span(), 'ok' if ok else 'violation')
-                    if not ok:
-                        r.violation('%s:%s:%d%d' % (b.path, what.replace(' ', ''), s_some, e_some), b.span(), b.path,
-                                    'with start %s and end %s the unchecked piece access is reachable without checking `%s`: an out-of-range '
-                                    'request indexes past the piece vector' % ('present' if s_some else 'absent',
-                                                                                'present' if e_some else 'absent', what))
+                def payload_v(e, which, vb=vb, pos=pos):
+                    return any(x[0] == 'arg' and x[3] == vb.key and x[1] == pos[which] for x in walk(e))
+                res = _range_check_fn(f, vb, pos, ok_targets, payload_v)
+                where = vb
+                break
+        for what, s_some, e_some, ok in res:
+            r.site('%s: bounds (start %s, end %s): `%s` is checked on every path to the unchecked access' % (
+                where.path, 'present' if s_some else 'absent', 'present' if e_some else 'absent', what), where.span(), 'ok' if ok else 'violation')
+            if not ok:
+                r.violation('%s:%s:%d%d' % (b.path, what.replace(' ', ''), s_some, e_some), where.span(), b.path,
+                            'with start %s and end %s the unchecked piece access is reachable without checking `%s`: an out-of-range '
+                            'request indexes past the piece vector' % ('present' if s_some else 'absent',
+                                                                        'present' if e_some else 'absent', what))
     r.check_floor()
     return r
